@@ -158,6 +158,9 @@ class ReopenEngine(Engine):
         swarm["limit"] = rng.choice([1, 2, 5, 32, 100])
         swarm["weights"]["set_limit"] = 0  # the limit is enforced at save time: lowering it is C11's business
         swarm["reopen_w"] = rng.choice([1, 2, 4])
+        # variant: object information validated against the sources (entries follow moved files,
+        # entries of vanished files are dropped at open); information then comes from real analysis only
+        swarm["validate_objectdb"] = rng.random() < 0.2
         swarm["oi_w"] = rng.choice([0, 2, 4])
         if swarm["program"]:
             init = gen.gen_program(rng, swarm)
@@ -187,6 +190,10 @@ class ReopenEngine(Engine):
                     break
                 path = rng.choice(files) if files and rng.random() < 0.8 else rng.choice(["ghost.py", "x/y.py", ""])
                 key = rng.choice(["", "f", "C.m", "0", "日本"])
+                if swarm["validate_objectdb"]:
+                    pys = [f for f in files if f.endswith(".py")]
+                    steps.append({"op": "analyze", "path": rng.choice(pys) if pys else path})
+                    continue
                 if rng.random() < 0.2:
                     # forget stored information (one file, or everything)
                     steps.append({"op": "oi", "kind": "del", "path": path if rng.random() < 0.5 else None})
@@ -236,6 +243,9 @@ class ReopenEngine(Engine):
         swarm = trace.get("swarm") or {}
         limit = trace["limit"]
         prefs = {"automatic_soa": bool(swarm.get("soa", True)), "save_history": True, "save_objectdb": True}
+        if swarm.get("validate_objectdb"):
+            prefs["validate_objectdb"] = True
+            prefs["automatic_soa"] = True
         A = World(trace["init"], limit=limit, ropefolder=ROPEFOLDER, prefs=prefs, tag="c12a-")
         B = World(trace["init"], limit=limit, ropefolder=ROPEFOLDER, prefs=prefs, tag="c12b-")
         try:
@@ -412,6 +422,14 @@ class ReopenEngine(Engine):
                 {"step": i, "before": _hb(h_before), "after": _hb(h_after), "first_diff": _first_diff(h_before, h_after)},
                 where=i,
             )
+        if B.prefs.get("validate_objectdb"):
+            # entries of files that no longer exist are dropped when the project is opened: by design
+            live = {k for k, v in B.snapshot().items() if isinstance(v, bytes)}
+            o_before = {k: v for k, v in o_before.items() if k in live}
+            o_after = {k: v for k, v in o_after.items() if k in live}
+            if "objectdb" in side:
+                side["objectdb"] = {k: v for k, v in side["objectdb"].items() if k in live}
+            out.stats["probe_reopen_validated_objectdb"] += 1
         if o_after != o_before:
             ok = False
             out.violate(
